@@ -9,7 +9,7 @@
   The tests are evaluated at build time (`#guard`, by the compiler's evaluator — a sanity check,
   not a theorem) and again by `oracle-c13` (`S` line) on every check run.
 -/
-import BMV.Vlog.Elab
+import BMV.Vlog.Lint
 namespace BMV.Vlog.SelfTest
 open BMV.Vlog
 
@@ -69,6 +69,13 @@ def errPortsSrc := include_str "../../../harness/vlog/testdata/err_ports.sexp"
 def errLoopSrc := include_str "../../../harness/vlog/testdata/err_loop.sexp"
 def errNomoduleSrc := include_str "../../../harness/vlog/testdata/err_nomodule.sexp"
 def errMemvecSrc := include_str "../../../harness/vlog/testdata/err_memvec.sexp"
+def lintBadSrc := include_str "../../../harness/vlog/testdata/lint_bad.sexp"
+
+/-- the lint findings of a source, sorted -/
+def lintOf (src : String) : List String :=
+  match Design.ofString src with
+  | .ok d => d.lint
+  | .error e => ["elab: " ++ e]
 
 /-- counter: counts when enabled, holds otherwise, wraps 15 → 0, terminal-count flag -/
 def tCounter : R Unit :=
@@ -155,6 +162,12 @@ def tests : List (String × Bool) :=
    ("err-memvec", failsWith (sim errMemvecSrc none (some "clk") [.clock []]) "used without index"),
    ("err-input-range", failsWith (sim counterSrc none (some "clk") [.clock [("en", 2)]]) "does not fit"),
    ("err-not-input", failsWith (sim counterSrc none (some "clk") [.clock [("q", 2)]]) "not a top-level input"),
+   ("lint-clean", [counterSrc, shiftregSrc, fsmSrc, fifoSrc, widthsSrc, procsSrc, hierSrc].all fun s => (lintOf s).isEmpty),
+   ("lint-bad", lintOf lintBadSrc ==
+      ["[assign-kind] reg r is assigned continuously",
+       "[multi-driver] net z has several continuous drivers",
+       "[assign-kind] net w is assigned in a procedural block",
+       "[multi-driver] reg done is assigned in more than one always block"]),
    ("err-sexp", failsWith (sim "(design (module" none none []) "unbalanced")]
 
 def describe (r : R Unit) : String := match r with | .ok _ => "ok" | .error e => e
@@ -164,5 +177,8 @@ def report : List String :=
   let bad := tests.filter (!·.2)
   if bad.isEmpty then [s!"S ok tests={tests.length}"]
   else [s!"S FAIL {bad.map (·.1)} counter:{describe tCounter} shiftreg:{describe tShiftreg} fsm:{describe tFsm} fifo:{describe tFifo} widths:{describe tWidths} procs:{describe tProcs} hier:{describe tHier}"]
+
+-- evaluated on every build of this module
+#guard tests.all (·.2)
 
 end BMV.Vlog.SelfTest
